@@ -21,6 +21,8 @@ type listModel struct {
 	nonest bool
 	// rejectB: a push policy rejects string values ending in "b" (used by the C10 scenarios)
 	rejectB bool
+	// ro: the read-only flag is up (only the C10 scenarios that raise it look at this)
+	ro bool
 	// reject: a push policy rejects exactly these values (with one and the same error value every time)
 	reject func(v any) bool
 }
@@ -242,6 +244,9 @@ func compareList(s stackage.Stack, m *listModel) []string {
 	}
 	if got := s.Avail(); got != wantAvail {
 		bad = append(bad, fmt.Sprintf("Avail()=%d want %d (Len %d)", got, wantAvail, L))
+	}
+	if got := s.CapReached(); got != wantFull { // (the older spelling of the same question)
+		bad = append(bad, fmt.Sprintf("CapReached()=%v want %v (Len %d cap %d)", got, wantFull, L, m.capk))
 	}
 	if got := s.IsFull(); got != wantFull {
 		bad = append(bad, fmt.Sprintf("IsFull()=%v want %v (Len %d cap %d)", got, wantFull, L, m.capk))
